@@ -78,8 +78,9 @@ def check_sort(prog, ctx):
             moved = any(isinstance(s, ast.Assign) and src(s.value) == "True" for s in stmts)
             ctx.check(neg == 1 and moved, rid, f, lp, f"swap path [{desc}]",
                       f"path [{desc}] exchanges two adjacent operators, negates the phase exactly once (found {neg}) and records the move")
-            cd = dict(conds)
-            ctx.check(cd.get(f"{lo}.label > {hi}.label") is True or cd.get(f"{hi}.label < {lo}.label") is True, rid, f, lp,
+            from engine.astutil import atom
+            cdn = {atom(ast.parse(k_, mode="eval").body): v_ for k_, v_ in conds}
+            ctx.check(cdn.get(atom(ast.parse(f"{lo}.label > {hi}.label", mode="eval").body)) is True, rid, f, lp,
                       f"swap condition [{desc}]", "operators are exchanged only when the left label is strictly greater (labels only)")
         elif stores:
             ctx.bad(rid, f, lp, f"path [{desc}]: {stores}", "stores into the operator string that are not an adjacent exchange")
